@@ -255,12 +255,24 @@ impl Oracle {
             let id = self.ids.get(&name).cloned().unwrap_or_else(|| name.clone());
             return CallServiceResult { ret_code: 0, result: Value::String(id).to_string() };
         }
+        if f.starts_with("errobj") {
+            let v = json!({"error_code": 77, "message": format!("m-{peer_name}-{f}")});
+            return CallServiceResult { ret_code: 0, result: v.to_string() };
+        }
+        if f.starts_with("num") {
+            return CallServiceResult { ret_code: 0, result: "42".into() };
+        }
         if f.starts_with("raw") {
             // raw JSON answer given as first argument (used by input enumerations)
             let v = req.args.first().cloned().unwrap_or_else(|| "null".into());
             return CallServiceResult { ret_code: 0, result: v };
         }
         let mut v = json!({"p": peer_name, "f": f, "a": req.args_json()});
+        if f.starts_with("rec") {
+            // bounded recursion: depth of the value = depth of the first argument + 1
+            let d = req.args_json().first().and_then(|a| a["d"].as_i64()).map(|d| d + 1).unwrap_or(0);
+            v["d"] = json!(d);
+        }
         if let Some(t) = tag {
             v["w"] = Value::String(t);
         }
@@ -276,5 +288,30 @@ pub fn outcome_code_class(code: i64) -> &'static str {
         20000..=29999 => "uncatchable",
         30000 => "unprocessed",
         _ => "other",
+    }
+}
+
+// ---------------------------------------------------------------------------------------------
+// stderr handling: the repository's parser prints diagnostics to stderr; fd 2 is pointed at /dev/null and
+// the harness logs through a saved duplicate.
+static SAVED_STDERR: std::sync::atomic::AtomicI32 = std::sync::atomic::AtomicI32::new(2);
+
+pub fn silence_stderr() {
+    unsafe {
+        let saved = libc::dup(2);
+        let devnull = libc::open(b"/dev/null\0".as_ptr() as *const libc::c_char, libc::O_WRONLY);
+        if saved >= 0 && devnull >= 0 {
+            libc::dup2(devnull, 2);
+            libc::close(devnull);
+            SAVED_STDERR.store(saved, std::sync::atomic::Ordering::SeqCst);
+        }
+    }
+}
+
+pub fn elog(msg: &str) {
+    let fd = SAVED_STDERR.load(std::sync::atomic::Ordering::SeqCst);
+    let line = format!("{msg}\n");
+    unsafe {
+        libc::write(fd, line.as_ptr() as *const libc::c_void, line.len());
     }
 }
